@@ -1167,8 +1167,10 @@ func pickBestVisibleNamespace(ps *PushContext, byNamespace map[string]*Service, 
 			if svc.Attributes.ServiceRegistry == provider.Kubernetes {
 				return svc.NamespacedName().Namespace
 			}
-			// if this is the first visible service, or it's older than our current best, then it is the new best that we have seen
-			if currentBestService == nil || svc.CreationTime.Before(currentBestService.CreationTime) {
+			// if this is the first visible service, or it's older than our current best, then it is the new best that we have seen.
+			// Services of equal age are ordered by namespace, so that the choice does not depend on map iteration order.
+			if currentBestService == nil || svc.CreationTime.Before(currentBestService.CreationTime) ||
+				(svc.CreationTime.Equal(currentBestService.CreationTime) && svc.Attributes.Namespace < currentBestService.Attributes.Namespace) {
 				currentBestService = svc
 			}
 		}
